@@ -78,6 +78,14 @@ CLAIMED = {
          "a chain of small lemmas (norm positive, |u|=1, keys, key order from the path's comparisons, monotone squares, expansion, positive scaling) "
          "each discharged in milliseconds where the direct query is unknown in every solver. Composition through the real get_full_assignments with "
          "n_t=3, n_o=2, n_b in {1,3}: index = (t*n_o+o)*n_b+b, NaN propagates.", "§5 C11"),
+ "C14": ("Claimed for the first sentence (the spectral sentence -- ARPACK, sorting, dense agreement -- is outside). One symbolic run end to end above the "
+         "compiled geometry: stubs -> real fold + real position assembly -> real FullGrid getters -> real GridWriter.save_* / GridReader.load_* (file "
+         "formats modelled as the identity, validated on real files each run) -> real SQRA.get_rate_matrix with symbolic energies, for "
+         "(n_b,n_o,n_t) in {(1,2,2),(2,1,2),(3,1,2),(2,2,2),(1,3,2)} (thorough: + 5 larger), all rotation patterns. Assume/guarantee cut at the "
+         "SQRA boundary: symmetry of borders and distances, identical pattern and stored order of the three files, positivity are discharged on the "
+         "ACTUAL assembled terms; then on fresh positive values in the PRODUCED layout: off-diagonal pattern of Q = saved adjacency, zero row sums, "
+         "detailed balance w.r.t. V_i exp(-E_i/RT) under the cap, and pi Q = 0 via flux variables. Proofs after the cut are shared between paths "
+         "that produce the same layout.", "§5 C14"),
 }
 NA = {
  "C03": "Claim is that Qhull's SphericalVoronoi regions/areas are the true nearest-neighbour cells: compiled geometry with no encodable source; a stub would assume the property (the symmetric assembly around it is verified under C04).",
